@@ -853,6 +853,8 @@ func PayWithContract(fc *types.V2FileContract, usage Usage) error {
 		return NewRPCError(ErrorCodePayment, fmt.Sprintf("insufficient renter funds: %v < %v", fc.RenterOutput.Value, amount))
 	} else if fc.MissedHostValue.Cmp(collateral) < 0 {
 		return NewRPCError(ErrorCodePayment, fmt.Sprintf("insufficient host collateral: %v < %v", fc.MissedHostValue, amount))
+	} else if fc.RevisionNumber == types.MaxRevisionNumber {
+		return NewRPCError(ErrorCodePayment, "contract is at its maximum revision number and cannot be revised")
 	}
 	fc.RevisionNumber++
 	fc.RenterOutput.Value = fc.RenterOutput.Value.Sub(amount)
